@@ -91,4 +91,11 @@ def conc(model, v, depth=0):
         return {str(k): conc(model, x, depth + 1) for k, x in v.items()}
     if isinstance(v, Opaque):
         return f"<opaque {v.what}>"
+    if type(v).__name__ == "FuncVal":
+        dom = v.f1.domain(0)
+        uni = model.get_universe(dom) or []
+        return {"__func__": {str(u): num(model, v.f1(u)) for u in uni},
+                "default": num(model, v.f1(z3.Const("__dflt", dom)))}
+    if type(v).__name__ == "PoolVal":
+        return {"__pool__": True}
     return f"<{type(v).__name__}>"
